@@ -31,6 +31,7 @@ import GeoProofs.Lemmas.RELMMultiPoint
 import GeoProofs.Lemmas.RELMOrder5
 import GeoProofs.Lemmas.RELMSym6
 import GeoProofs.Lemmas.RELMEnds2
+import GeoProofs.Lemmas.RELMTotal5
 import Mathlib.Tactic.NormNum
 
 namespace Geo.Proofs.C01
@@ -1288,6 +1289,34 @@ theorem relateImpl_transpose_total (a b : Geom) (ha : noZeroLine a = true) (hb :
   cases h : relateImpl? a b with
   | none => rw [h] at hp; cases hp
   | some m => rfl
+
+/-- [T] **`relate` never panics** (model of the implementation, exact arithmetic): for all operands —
+valid or not — without a zero-length `Line` and with closed polygon rings (the invariant of
+`geo_types::Polygon`; the model's type admits open rings) the code reaches its end: none of
+"node should have been labeled by now", the slice indexing of `EdgeEndBuilder`, "can't create empty
+edge", "found single null side", "found partial label" can happen. Invariants: every node of a graph is
+labelled for its own operand and every edge starts and ends at a node (`ginv_buildGraph`,
+`freshGraph_ginv`); edges carry sorted lists of valid records (`mutualGraphs_edgeWF`), so the stubs of
+`EdgeEndBuilder` exist and start at nodes of the node map (`endsForEdges_isSome`); every node of the node
+map is labelled for both operands after `label_isolated_nodes` (`iso_count`); edge ends carry side
+positions on both sides or on none, which is what `propagate_side_labels` needs (`starLabels_isSome`). -/
+theorem relateImpl_never_panics (a b : Geom) (ha : noZeroLine a = true) (hb : noZeroLine b = true)
+    (ca : ringsClosed a = true) (cb : ringsClosed b = true) : (relateImpl? a b).isSome :=
+  relateImpl_isSome a b ha hb ca cb
+
+/-- a bow-tie ring with a spike against a collection with overlapping members -/
+example : (relateImpl? (.polygon ⟨[⟨0, 0⟩, ⟨2, 2⟩, ⟨2, 0⟩, ⟨0, 2⟩, ⟨3, 3⟩, ⟨0, 2⟩, ⟨0, 0⟩], []⟩)
+    (.collection [.rect ⟨0, 0⟩ ⟨2, 2⟩, .lineString [⟨1, 1⟩, ⟨1, 1⟩, ⟨3, 0⟩], .multiPoint [⟨2, 2⟩]])).isSome :=
+  relateImpl_never_panics _ _ (by decide +kernel) (by decide +kernel) (by decide +kernel) (by decide +kernel)
+
+/-- [T] **transpose law for the total function**: on such operands `relateImpl b a = (relateImpl a b)ᵀ`. -/
+theorem relateImpl_transpose_closed (a b : Geom) (ha : noZeroLine a = true) (hb : noZeroLine b = true)
+    (ca : ringsClosed a = true) (cb : ringsClosed b = true) : relateImpl b a = (relateImpl a b).transpose :=
+  relateImpl_transpose_total a b ha hb (relateImpl_never_panics a b ha hb ca cb)
+
+example : relateImpl (.lineString [⟨0, 0⟩, ⟨2, 2⟩, ⟨2, 0⟩, ⟨0, 2⟩]) (.triangle ⟨0, 0⟩ ⟨4, 0⟩ ⟨0, 4⟩) =
+    (relateImpl (.triangle ⟨0, 0⟩ ⟨4, 0⟩ ⟨0, 4⟩) (.lineString [⟨0, 0⟩, ⟨2, 2⟩, ⟨2, 0⟩, ⟨0, 2⟩])).transpose :=
+  relateImpl_transpose_closed _ _ rfl rfl rfl rfl
 
 end Impl
 
